@@ -476,8 +476,8 @@ From GenC02 Require Import HydroGen.
 Local Open Scope R_scope.
 Definition e0 : env := mk_env %(Tn)s %(TMax)s %(TMin)s %(vMin)s %(vJ)s
   %(pHigh)s %(pLow)s %(eHigh)s %(eLow)s %(wHigh)s %(wLow)s %(csqHigh)s %(csqLow)s.
-Ltac ne := first [apply Rlt_not_eq; interval with (i_prec 90)
-                 |apply Rgt_not_eq; interval with (i_prec 90)].
+Ltac ne := first [apply Rlt_not_eq; interval with (i_prec 64)
+                 |apply Rgt_not_eq; interval with (i_prec 64)].
 Ltac ev :=
   cbv beta iota zeta delta [matching_given matching_lte deflag_result_given
     deflag_result_lte tmFromvpsq deton_result findHydroBoundaries vpvmAndvpovm gammaSq
@@ -490,14 +490,14 @@ Ltac ev :=
       destruct (Rlt_dec a b) as [E|E]; [exfalso; revert E; apply Rle_not_lt; interval|];
       clear E
   | |- context [Rmin ?a ?b] =>
-      first [rewrite (Rmin_left a b) by interval with (i_prec 90)
-            |rewrite (Rmin_right a b) by interval with (i_prec 90)]
+      first [rewrite (Rmin_left a b) by interval with (i_prec 64)
+            |rewrite (Rmin_right a b) by interval with (i_prec 64)]
   | |- context [Rmax ?a ?b] =>
-      first [rewrite (Rmax_left a b) by interval with (i_prec 90)
-            |rewrite (Rmax_right a b) by interval with (i_prec 90)]
+      first [rewrite (Rmax_left a b) by interval with (i_prec 64)
+            |rewrite (Rmax_right a b) by interval with (i_prec 64)]
   end;
   cbv beta iota delta [negb fst snd];
-  interval with (i_prec 90).
+  interval with (i_prec 64).
 """
 
 
@@ -541,7 +541,9 @@ def correspondence_rows(ctx, case, th, h, rng):
     xs = [list(map(float, sol.x)),
           list(map(float, h._mappingT([Tn * rng.uniform(1.0, 1.2),
                                        Tn * rng.uniform(0.9, 1.1)])))]
-    for x in xs:
+    # (each residual goal costs ~5 s of interval arithmetic: one generic point per mode;
+    # the solver's final point is covered by the deflag_result goals)
+    for x in xs[1:]:
         y = fun(x)
         t = "(matching_given e0 %s %s %s (%s, %s))" % (q(vw), q(vp), t0, q(x[0]), q(x[1]))
         sc = max(abs(float(y[0])), abs(float(y[1])), 1.0)
@@ -561,7 +563,7 @@ def correspondence_rows(ctx, case, th, h, rng):
     Tpm0 = [float(x) for x in cell(fun, "Tpm0")]
     t0 = "(%s, %s)" % (q(Tpm0[0]), q(Tpm0[1]))
     x = list(map(float, sol.x))
-    for xx, y in spy.probed["matching"]:
+    for xx, y in spy.probed["matching"][:1]:
         xx = list(map(float, xx))
         t = "(matching_lte e0 %s %s (%s, %s))" % (q(vw), t0, q(xx[0]), q(xx[1]))
         sc = max(abs(float(y[0])), abs(float(y[1])), 1.0)
@@ -632,8 +634,28 @@ def run(ctx):
             ctx.broken.append("harness: recorded input raised")
     nmodels = ctx.n(14, 160)
     nvw = ctx.n(10, 16)
-    corr_jobs = []
-    ncorr = ctx.n(2, 8)
+    # ---- certified correspondence: files written and coqc started now, collected below --
+    procs = []
+    if proved:
+        for m in range(ctx.n(2, 8)):
+            case = gen_case(rng, kind=["bag", "2step"][m % 2])
+            try:
+                th = build_model(case)
+                h = make_hydro(th)
+                allrows = correspondence_rows(ctx, case, th, h, rng)
+                # the residual goals (atan, many operations) take ~5 s each: small files,
+                # all compiled in parallel with the direct validation below
+                for c in range(0, len(allrows), 6):
+                    rows = allrows[c:c + 6]
+                    p = ctx.write("Cases/Eval_%d_%d.v" % (m, c // 6),
+                                  eval_file(case, h, rows))
+                    procs.append(("%d_%d" % (m, c // 6), case, rows, p, subprocess.Popen(
+                        ["timeout", "600", "coqc"] + ctx.coq_args() + [p], cwd=ctx.bdir,
+                        stdout=subprocess.PIPE, stderr=subprocess.PIPE, text=True)))
+            except Exception:
+                ctx.log("correspondence rows failed", json.dumps(case),
+                        traceback.format_exc())
+                ctx.broken.append("harness: correspondence rows raised")
     t0 = time.time()
     for m in range(nmodels):
         case = gen_case(rng)
@@ -651,15 +673,6 @@ def run(ctx):
                 ctx.log("harness exception at", json.dumps(case), vw,
                         traceback.format_exc())
                 ctx.broken.append("harness: check_point raised")
-        if case["kind"] in ("bag", "2step") and len(corr_jobs) < ncorr and gen_ok:
-            try:
-                rows = correspondence_rows(ctx, case, th, h, rng)
-                p = ctx.write("Cases/Eval_%d.v" % m, eval_file(case, h, rows))
-                corr_jobs.append((m, case, rows, p))
-            except Exception:
-                ctx.log("correspondence rows failed", json.dumps(case),
-                        traceback.format_exc())
-                ctx.broken.append("harness: correspondence rows raised")
         if m == 0:
             ctx.sample(dict(case=case, vJ=h.vJ, vMin=h.vMin,
                             first=stats[-1] if stats else None))
@@ -683,25 +696,21 @@ def run(ctx):
             ctx.log("traced model raised", json.dumps(case), traceback.format_exc())
             ctx.broken.append("harness: traced model raised")
     if stats:
-        worst = max(stats, key=lambda r: r["mis"] / r["tol"])
+        worst = max([r for r in stats if "bad" not in r] or stats,
+                    key=lambda r: r["mis"] / r["tol"])
         ctx.log("worst flux mismatch / tolerance: %.3g (mis %.3g, vw %.4f, %s)" % (
             worst["mis"] / worst["tol"], worst["mis"], worst["vw"], worst["branch"]))
         ctx.cov["worst_mismatch_over_tolerance"] = worst["mis"] / worst["tol"]
-    # ---- certified correspondence ------------------------------------------------------
-    if proved:
-        procs = [(m, case, rows, p, subprocess.Popen(
-            ["timeout", "600", "coqc"] + ctx.coq_args() + [p], cwd=ctx.bdir,
-            stdout=subprocess.PIPE, stderr=subprocess.PIPE, text=True))
-            for m, case, rows, p in corr_jobs]
-        for m, case, rows, p, pr in procs:
-            out, err = pr.communicate()
-            for _ in rows:
-                ctx.count("certified_eval")
-            if pr.returncode != 0:
-                ctx.broken.append("correspondence: certified evaluation Eval_%d" % m)
-                ctx.log("certified evaluation failed", vlib.tail(err, 8))
-                ctx.log("model", json.dumps(case))
-        ctx.log("certified evaluations: %d files" % len(procs))
+    # ---- collect the certified evaluations ---------------------------------------------
+    for m, case, rows, p, pr in procs:
+        out, err = pr.communicate()
+        for _ in rows:
+            ctx.count("certified_eval")
+        if pr.returncode != 0:
+            ctx.broken.append("correspondence: certified evaluation Eval_%s" % m)
+            ctx.log("certified evaluation failed", vlib.tail(err, 8))
+            ctx.log("model", json.dumps(case))
+    ctx.log("certified evaluations: %d files" % len(procs))
     ctx.cov["rule"] = (
         "models: random bag (psi 0.5..0.98), two-step (a_broken 0.15..0.3, a_sym, mu^2) "
         "and template (alN 1e-3..0.3 above (1-psiN)/3, psiN 0.5..0.99, cb2<=cs2 in "
